@@ -135,7 +135,7 @@ func c17Alphabet() []c17Patch {
 
 func c17(r *hx.Run) {
 	fx.Quiet()
-	r.Rule = "breadth-first search from the empty document: a transition applies one patch of a 36-patch alphabet (add/replace-in-place/remove of 2 keys, 2 services, 2 aliases, replace, JSON patches, 4 failing patches) through the real DocumentComposer; states are canonical documents, explored to depth 3 (thorough 4); in every state every single patch and every list of two over a 23-patch sub-alphabet (thorough: every list of two over all 36 and every list of three over the sub-alphabet from the states within two steps of the empty document) is applied and checked for purity (input equals a snapshot, also after the result is mutated), determinism, atomicity (failing member => (nil, err); otherwise equal to the fold of singletons) and equality with the ordered-map reference ref/doc; every reachable document with non-empty sections must survive PatchesFromDocument -> ApplyPatches({}); documents with 1..9 entries per section x adds mixing new and existing ids in every order / removals / pairs (slice-growth boundaries) against ref/doc; every single patch is also built through the library's constructor for its action (patch.New*Patch) and through FromBytes/Bytes and must have the same effect in every state; the same round trip for ~330 well-formed documents carrying every content class (format verbs such as %s, quotes, backslashes, control / non-ASCII / astral characters, numbers, null, nested containers) as member value, member name, nested value, service / key member, endpoint and alias. Non-trivial: distinct (state, list) pairs whose reference result differs from the input state or fails."
+	r.Rule = "breadth-first search from the empty document: a transition applies one patch of a 36-patch alphabet (add/replace-in-place/remove of 2 keys, 2 services, 2 aliases, replace, JSON patches, 4 failing patches) through the real DocumentComposer; states are canonical documents, explored to depth 3 (thorough 4); in every state every single patch and every list of two over a 23-patch sub-alphabet (thorough: every list of two over all 36 and every list of three over the sub-alphabet from the states within two steps of the empty document) is applied and checked for purity (input equals a snapshot, also after the result is mutated), determinism, atomicity (failing member => (nil, err); otherwise equal to the fold of singletons) and equality with the ordered-map reference ref/doc; every reachable document with non-empty sections must survive PatchesFromDocument -> ApplyPatches({}); documents with 1..9 entries per section x adds mixing new and existing ids in every order / removals / pairs / removal lists longer than the section (slice-growth and count boundaries) against ref/doc; every single patch is also built through the library's constructor for its action (patch.New*Patch) and through FromBytes/Bytes and must have the same effect in every state; the same round trip for ~330 well-formed documents carrying every content class (format verbs such as %s, quotes, backslashes, control / non-ASCII / astral characters, numbers, null, nested containers) as member value, member name, nested value, service / key member, endpoint and alias. Non-trivial: distinct (state, list) pairs whose reference result differs from the input state or fails."
 	alpha := c17Alphabet()
 	composer := doccomposer.New()
 	maxDepth := 3
@@ -557,6 +557,21 @@ func c17Sized(r *hx.Run, composer *doccomposer.DocumentComposer) {
 			}
 			n1, _ := mk(-1, false)
 			n2, _ := mk(-2, false)
+			// removal lists LONGER than the section (absent ids are ignored, however many there are): only absent ids; one
+			// present id among n, n+1 and 2n+1 absent ones, first / in the middle / last
+			for _, extra := range []int{n, n + 1, 2*n + 1} {
+				var absent []interface{}
+				for a := 1; a <= extra; a++ {
+					_, ida := mk(-a, false)
+					absent = append(absent, ida)
+				}
+				jobs = append(jobs, job{fmt.Sprintf("sized|n=%d|%s|remove-only-absent|extra=%d", n, sec, extra), d, []interface{}{rmP(sec, absent...)}})
+				_, idPresent := mk(n-1, true)
+				for _, pos := range []int{0, extra / 2, extra} {
+					ids := append(append(append([]interface{}{}, absent[:pos]...), idPresent), absent[pos:]...)
+					jobs = append(jobs, job{fmt.Sprintf("sized|n=%d|%s|remove-one-among-absent|extra=%d|pos=%d", n, sec, extra, pos), d, []interface{}{rmP(sec, ids...)}})
+				}
+			}
 			for i := 0; i < n; i++ {
 				ei, idi := mk(i, true)
 				tag := fmt.Sprintf("sized|n=%d|%s|i=%d|", n, sec, i)
